@@ -4,12 +4,15 @@ import KanidmModel.DynGroup
 /-!
 Driver for C18 (stateful): the model state follows the harness' history. Fields are separated by ` | `.
 
-* `init | <classA> <nameA> <uuidA> <trackLo> | <recycled> <tombstone> <dyngroup> | <layout> | <ents>`
-      → `ok <n>`    constants (values in `Val` syntax), index layout `a:t,…` (t ∈ e s p o), the
+* `init | <classA> <nameA> <uuidA> <trackLo> | <recycled> <tombstone> <dyngroup> <self> | <layout> | <ents>`
+      → `ok <n> <initB>`    constants (values in `Val` syntax), index layout `a:t,…` (t ∈ e s p o), the
       stored entries; the cache is set to the live dyngroups (what `DynGroup::reload` builds)
 * `op create | <ents>` · `op mod | <ids> | <a>=<vals>,…` · `op filt | <ids> | <FC>` ·
   `op del | <ids>` · `op rev | <id>`                         → `ok <view>` | `err <view>`
 * `view`                                                      → `<view>`
+* `scope`   → `<covered> <exact>`: the history so far satisfies the hypotheses of
+              `dyn_exact_partial` (`initB`, then `opSafeB` and `noDynB` at every committed operation);
+              the model state satisfies the property (`exactB`)
 * `exact`   → for every live dyngroup `id=<ids>`: the live entries satisfying its filter
               (`FC.matches`, the specification), `;`-separated
 * `cls | <FC>` → `<fcOk> <safe>`: resolvable, and its resolved + optimised form is `F.safe`
@@ -25,10 +28,13 @@ structure St where
   env : Env
   st : State
   trackLo : Nat
+  /-- the history so far is one the partial theorem covers (`initB` and, per committed operation,
+  `opSafeB` and `noDynB`: the conjuncts of `safeRunB`) -/
+  covered : Bool
 
-def envInit : Env := ⟨0, ⟨99, 1⟩, .str [], .str [], .str [], fun _ _ => false⟩
+def envInit : Env := ⟨0, ⟨99, 1⟩, .str [], .str [], .str [], .num 0, fun _ _ => false⟩
 
-def St.init : St := ⟨envInit, ⟨[], []⟩, 0⟩
+def St.init : St := ⟨envInit, ⟨[], fun _ => [], fun _ => [], fun _ => [], []⟩, 0, false⟩
 
 def fields (line : String) : List String :=
   (line.splitOn "|").map (fun s => s.trimAscii.toString)
@@ -37,7 +43,7 @@ def ids? (s : String) : Option (List Nat) :=
   if s == "-" || s == "" then some [] else (s.splitOn ".").mapM String.toNat?
 
 def showIds (l : List Nat) : String :=
-  if l.isEmpty then "-" else ".".intercalate ((sortNats l).map toString)
+  if l.isEmpty then "-" else ".".intercalate ((sortNats l.eraseDups).map toString)
 
 def itypeOf (s : String) : Option IType :=
   match s with
@@ -53,16 +59,28 @@ def parseLayout (s : String) : Option (List (Nat × IType)) :=
 def parseFilt (s : String) : Option (Option FC) :=
   if s == "-" then some none else (FC.parse s).map some
 
-def parseEnt (s : String) : Option Ent :=
+/-- an entry with its three reference attributes -/
+structure EntX where
+  e : Ent
+  dyn : List Nat
+  mem : List Nat
+  rdmo : List Nat
+
+def parseEnt (s : String) : Option EntX :=
   match s.splitOn "/" with
   | [id, attrs, f] => do
-    pure ⟨← id.toNat?, ← Entry.parseAssoc attrs, ← parseFilt f, [], [], []⟩
+    pure ⟨⟨← id.toNat?, ← Entry.parseAssoc attrs, ← parseFilt f⟩, [], [], []⟩
   | [id, attrs, f, d, m, r] => do
-    pure ⟨← id.toNat?, ← Entry.parseAssoc attrs, ← parseFilt f, ← ids? d, ← ids? m, ← ids? r⟩
+    pure ⟨⟨← id.toNat?, ← Entry.parseAssoc attrs, ← parseFilt f⟩, ← ids? d, ← ids? m, ← ids? r⟩
   | _ => none
 
-def parseEnts (s : String) : Option (List Ent) :=
+def parseEnts (s : String) : Option (List EntX) :=
   if s == "-" || s == "" then some [] else (s.splitOn ";").mapM parseEnt
+
+def tableOf (es : List EntX) (f : EntX → List Nat) : Nat → List Nat := fun u =>
+  match es.find? (fun x => x.e.id == u) with
+  | some x => f x
+  | none => []
 
 def insertStr (x : String) : List String → List String
   | [] => [x]
@@ -82,27 +100,25 @@ def insertEnt (e : Ent) : List Ent → List Ent
   | [] => [e]
   | y :: ys => if e.id ≤ y.id then e :: y :: ys else y :: insertEnt e ys
 
-def showEnt (env : Env) (e : Ent) : String :=
+def showEnt (env : Env) (st : State) (e : Ent) : String :=
   "/".intercalate [toString e.id, (if env.live e then "L" else "R"), showAttrs e,
-    showIds e.dyn, showIds e.mem, showIds e.rdmo]
+    showIds (st.dyn e.id), showIds (st.mem e.id), showIds (st.rdmo e.id)]
 
 def view (s : St) : String :=
   let es := (s.st.ents.filter (fun e => e.filt.isSome || decide (s.trackLo ≤ e.id))).foldr insertEnt []
-  if es.isEmpty then "-" else ";".intercalate (es.map (showEnt s.env))
-
-/-- the specification's member set of one group: live entries satisfying the filter -/
-def specMembers (env : Env) (st : State) (fc : FC) : List Nat :=
-  (st.ents.filter (fun e => env.live e && fc.matches ValSem.std noSelf env.c.uuidA e.entry)).map (·.id)
+  if es.isEmpty then "-" else ";".intercalate (es.map (showEnt s.env s.st))
 
 def exactView (s : St) : String :=
   let gs := (s.st.ents.filter (fun g => s.env.live g && s.env.isDyn g.entry)).foldr insertEnt []
   let parts := gs.filterMap fun g =>
-    g.filt.map fun fc => toString g.id ++ "=" ++ showIds (specMembers s.env s.st fc)
+    g.filt.map fun fc => toString g.id ++ "=" ++ showIds (specMembers s.env s.st.ents fc)
   if parts.isEmpty then "-" else ";".intercalate parts
 
 def doOp (s : St) (op : Op) : St × String :=
   match step s.env s.st op with
-  | some st' => let s' := { s with st := st' }; (s', "ok " ++ view s')
+  | some st' =>
+    let s' := { s with st := st', covered := s.covered && opSafeB s.env s.st op && noDynB s.env st'.ents }
+    (s', "ok " ++ view s')
   | none => (s, "err " ++ view s)
 
 def parseVals (s : String) : Option (List Val) :=
@@ -118,6 +134,7 @@ def parseChange (s : String) : Option (List (Nat × List Val)) :=
 def handle (s : St) (line : String) : St × String :=
   match fields line with
   | ["view"] => (s, view s)
+  | ["scope"] => (s, s!"{showBool s.covered} {showBool (exactB s.env s.st)}")
   | ["exact"] => (s, exactView s)
   | ["cls", f] =>
     match FC.parse f with
@@ -129,18 +146,17 @@ def handle (s : St) (line : String) : St × String :=
     | none => (s, "bad-filter")
   | ["init", consts, vals, layout, ents] =>
     match tokens consts, tokens vals, parseLayout layout, parseEnts ents with
-    | [ca, na, ua, lo], [r, t, d], some lay, some es =>
-      match ca.toNat?, na.toNat?, ua.toNat?, lo.toNat?, Val.ofString r, Val.ofString t, Val.ofString d with
-      | some ca, some na, some ua, some lo, some r, some t, some d =>
-        let env : Env := ⟨ca, ⟨ua, na⟩, r, t, d, fun a ty => lay.contains (a, ty)⟩
-        let cache := es.filterMap fun e =>
-          if env.live e && env.isDyn e.entry then e.filt.map (fun fc => (e.id, fc)) else none
-        (⟨env, ⟨es, cache⟩, lo⟩, s!"ok {es.length}")
-      | _, _, _, _, _, _, _ => (s, "bad-init")
+    | [ca, na, ua, lo], [r, t, d, sf], some lay, some es =>
+      match ca.toNat?, na.toNat?, ua.toNat?, lo.toNat?, Val.ofString r, Val.ofString t, Val.ofString d, Val.ofString sf with
+      | some ca, some na, some ua, some lo, some r, some t, some d, some sf =>
+        let env : Env := ⟨ca, ⟨ua, na⟩, r, t, d, sf, fun a ty => lay.contains (a, ty)⟩
+        let st := State.load env (es.map (·.e)) (tableOf es (·.dyn)) (tableOf es (·.mem)) (tableOf es (·.rdmo))
+        (⟨env, st, lo, initB env st⟩, s!"ok {es.length} {showBool (initB env st)}")
+      | _, _, _, _, _, _, _, _ => (s, "bad-init")
     | _, _, _, _ => (s, "bad-init")
   | ["op create", ents] =>
     match parseEnts ents with
-    | some es => doOp s (.create es)
+    | some es => doOp s (.create (es.map (·.e)))
     | none => (s, "bad-ents")
   | ["op mod", ids, ch] =>
     match ids? ids, parseChange ch with
